@@ -1,4 +1,5 @@
 import Femio.Model.FistrMsh
+import Femio.Model.FistrCanon
 import Femio.Lemmas.FistrMshProps
 import Femio.Lemmas.FistrHdr
 import Femio.Lemmas.FistrRU
@@ -8,45 +9,8 @@ import Femio.Lemmas.FistrG4
 `fileBlocks m`; the header scan returns these blocks; every section key finds exactly its blocks (symbolic group /
 material names); every `read…` function returns the written data; `remove_useless_nodes` (via `Lemmas/FistrRU`). -/
 
-namespace Femio.C01
-open Femio.Fistr Femio.Gen Numeral
-
-/-- ELEMENT_TYPES indices of the types the property names: line, tri, quad, tet, tet2, prism, hex, hex2
-    (and line2, spring, which the two tables also share) -/
-def writerTypes : List Nat := [0, 3, 5, 8, 9, 12, 14, 15, 1, 2]
-
-/-- what the reader must return for the row lists of a written mesh -/
-def canonNodes (m : MshIn) : List (Nat × List Dec) := m.nodes.map fun r => (r.1, r.2.map (Sci.toDec 12))
-
-/-- referenced node ids of a mesh -/
-def referenced (m : MshIn) : List Nat := m.blocks.flatMap fun b => b.2.flatMap (·.2)
-
-/-- a `\w+` token -/
-def IsToken (n : Name) : Prop := n ≠ [] ∧ ∀ c ∈ n, isWord c = true
-
-instance (n : Name) : Decidable (IsToken n) := by unfold IsToken; infer_instance
-
-/-- well-formed input of the writer (every conjunct is decidable): at least one node and one element block;
-    distinct node ids, distinct element ids; blocks in ELEMENT_TYPES order, one per type, of supported types, non-empty;
-    every referenced node exists; three coordinates per node; prism rows of length 6; non-empty groups with distinct
-    `\w+` names other than `ALL`; section / material names are `\w+` tokens; the initial temperature is given for the
-    nodes, in their order -/
-structure WF (m : MshIn) : Prop where
-  nodes_ne : m.nodes ≠ []
-  blocks_ne : m.blocks ≠ []
-  node_ids : (m.nodes.map (·.1)).Nodup
-  elem_ids : (m.blocks.flatMap fun b => b.2.map (·.1)).Nodup
-  types_asc : (m.blocks.map (·.1)).Pairwise (· < ·)
-  refs : ∀ i ∈ referenced m, i ∈ m.nodes.map (·.1)
-  blocks_ok : ∀ b ∈ m.blocks, b.1 ∈ writerTypes ∧ b.2 ≠ []
-  coords : ∀ r ∈ m.nodes, r.2.length = 3
-  prism : ∀ b ∈ m.blocks, b.1 = 12 → ∀ r ∈ b.2, r.2.length = 6
-  groups_ok : ∀ g ∈ m.groups, g.2 ≠ [] ∧ g.1 ≠ c!"ALL" ∧ IsToken g.1
-  group_names : (m.groups.map (·.1)).Nodup
-  sec_ok : ∀ s ∈ m.sec, IsToken s.egrp ∧ IsToken s.mat
-  temp_ok : ∀ t ∈ m.temp, t.map (·.1) = m.nodes.map (·.1)
-
-end Femio.C01
+/- `writerTypes`, `canonNodes`, `referenced`, `IsToken`, `WF`, `canon` (namespace `Femio.C01`), `RT.secType`,
+   `RT.canonTemp`, `RU.pick` are defined in `Model/FistrCanon.lean` (core only: the driver evaluates them). -/
 
 namespace Femio.Fistr.RT
 open Numeral Femio.Gen Femio.C01
@@ -70,7 +34,6 @@ def tightGroups (m : MshIn) : Bool :=
   decide ((m.groups.flatMap (·.2)).length = nElemsIn m ∧
     nElemsIn m = m.groups.length + (if m.hasAll then 1 else 0) - 1)
 
-def secType (s : SecIn) : Name := if s.shell then c!"SHELL" else c!"SOLID"
 def secHdr (s : SecIn) : Line := c!"!SECTION,TYPE=" ++ secType s ++ c!",EGRP=" ++ s.egrp ++ c!",MATERIAL=" ++ s.mat
 def matHdr (s : SecIn) : Line := c!"!MATERIAL,NAME=" ++ s.mat ++ c!",ITEM=1"
 def itemHdr : Line := c!"!ITEM=1,SUBITEM=2"
@@ -842,9 +805,6 @@ theorem extendAssignments_temp (ng : List (Name × List Nat)) (t : List (Nat × 
     rw [this, startsWith_alpha_showNat]; simp
   simp [this]
 
-def canonTemp (m : MshIn) : List (Name × List (Nat × List Dec)) :=
-  m.temp.toList.map fun t => (c!"TEMPERATURE", t.map fun r => (r.1, [r.2.toDec 12]))
-
 theorem readInitial_file (m : MshIn) (hwf : WF m) (ng : List (Name × List Nat)) :
     readInitial ng (m.nodes.map (·.1)) (fileBlocks m) = some (canonTemp m) := by
   unfold readInitial canonTemp
@@ -873,21 +833,6 @@ end Femio.Fistr.RT
 
 namespace Femio.C01
 open Femio.Fistr Femio.Fistr.RT Femio.Gen Numeral
-
-/-- **what the reader returns for the file written for `m`**: the node table restricted to the referenced nodes
-    (all nodes referenced: storage order kept; otherwise the referenced ids ascending, as `remove_useless_nodes`
-    leaves them) with the exact decimal coordinates; the element blocks with the original connectivity; `ALL` + the
-    element groups; section and material; the initial temperatures re-bound to the surviving nodes -/
-def canon (m : MshIn) : MshRead :=
-  { nodes := if m.nodes.length = (uniqueNat (referenced m)).length then canonNodes m
-             else RU.pick (uniqueNat (referenced m)) (canonNodes m)
-    elems := m.blocks
-    ngroups := [(c!"ALL", m.nodes.map (·.1))]
-    egroups := (c!"ALL", allElemIds m.blocks) :: m.groups
-    sections := m.sec.toList.map fun s => (s.mat, secType s, s.egrp)
-    materials := m.sec.toList.map fun s => (s.mat, [s.young.toDec 8, s.poisson.toDec 8])
-    nodal := if m.nodes.length = (uniqueNat (referenced m)).length then canonTemp m
-             else (canonTemp m).map fun p => (p.1, RU.pick (uniqueNat (referenced m)) p.2) }
 
 theorem canonNodes_ids (m : MshIn) : (canonNodes m).map (·.1) = m.nodes.map (·.1) := by
   simp [canonNodes, List.map_map, Function.comp_def]
